@@ -258,12 +258,15 @@ def gen_plan(prop, run_seed, tier, ctx):
     dec = Decider(run_seed)
     pool, groups = ctx['pool'], ctx['groups']
     est = ctx['step_estimate']
-    n_clients = [1, 2, 2, 2, 3, 3, 4][dec.choice('n-clients', 7)]
+    # 6 and 10 callers: resources sized for a fixed number of threads (pools, per-thread slots) only wrap with many
+    n_clients = [1, 2, 2, 2, 3, 3, 4, 4, 6, 10][dec.choice('n-clients', 10)]
     fault_free = dec.chance('fault-free', 0.4)
     enabled = {k: (not fault_free) and dec.choice('en-' + k, 3) > 0 for k in ('abort', 'alloc-fail-call', 'alloc-fail-ctor', 'stall')}
     p_fault = 0.0 if fault_free else [0.05, 0.15, 0.4][dec.choice('p-fault', 3)]
     if not fault_free and dec.chance('fault-sweep', 0.3):
         return gen_sweep_plan(dec, run_seed, ctx)
+    if dec.chance('burst', 0.03):
+        return gen_burst_plan(dec, run_seed, ctx)
     # focus: a few model groups so that clients share models
     gkeys = sorted(groups)
     heavy = dec.chance('heavy', ctx['p_heavy'])
@@ -291,14 +294,14 @@ def gen_plan(prop, run_seed, tier, ctx):
                     tset.append(tw)
     has_dt = any(g[0] == 'DateTime' for g in focus)
     cold = False
-    if dec.chance('cold', 0.5):
+    if dec.chance('cold', 0.5) and not ctx.get('no_restart'):
         cold = 'full' if (has_dt and dec.chance('cold-full', 0.04)) else 'light'
     clients = []
     for cid in range(n_clients):
         ops = []
-        for _ in range(1 + dec.choice('n-ops', 6 if tier == 'quick' else 8)):
+        for _ in range(1 + dec.choice('n-ops', (6 if tier == 'quick' else 8) if n_clients <= 4 else 3)):
             r = dec.choice('op-kind', 40)
-            if r == 0:
+            if r == 0 and not ctx.get('no_restart'):
                 ops.append({'op': 'restart', 'scope': 'light'})
                 continue
             if r == 1:
@@ -372,6 +375,21 @@ def pick_probe(dec, plist):
     if strong and dec.choice('strong-probe', 2):
         return strong[dec.choice('sp', len(strong))]['key']
     return plist[dec.choice('probe', len(plist))]['key']
+
+
+def gen_burst_plan(dec, run_seed, ctx):
+    """Burst: ONE caller issues hundreds of DISTINCT cheap requests and then re-asks the first ones. Bounded caches, ring
+    buffers and counters only misbehave once they are full or wrap (64, 128, 256 entries); short runs never get there."""
+    pool, groups = ctx['pool'], ctx['groups']
+    cheap = [k for g in sorted(groups) if g[0] not in ('DateTime', 'Currency') for k in groups[g]]
+    n = [64, 140, 300, 600][dec.choice('burst-n', 4)]
+    keys = dec.sample('burst-keys', cheap, min(n, len(cheap)))
+    via = 'helper' if dec.choice('via', 3) else 'model'
+    ops = [{'op': 'call', 'tuple': k, 'via': via} for k in keys]
+    ops += [{'op': 'call', 'tuple': k, 'via': via, 'verify': True} for k in keys[:12]]
+    clients = [{'cid': 0, 'placement': 'main' if dec.choice('main', 2) else 'pooled', 'ops': ops}]
+    return {'clients': clients, 'sched': {'kind': 'walk', 'p': 1e-4}, 'cold': False, 'shared': [], 'dirty': None,
+            'cold_cultures': [], 'sched_seed': derive_seed(run_seed, 'sched'), 'fault_free': True, 'burst': True}
 
 
 def gen_sweep_plan(dec, run_seed, ctx, k_points=8):
@@ -774,6 +792,9 @@ def run_batch(job):
     else:
         ctx['dt_focus'] = set(bdec.sample('dt-focus', dt_groups, 3)) | {('en-us', 0)}
     ctx['p_heavy'] = 0.25
+    # long-uptime batches: no cold start and no restart for the whole batch (hundreds of requests in one process), so
+    # that capacity- or count-dependent state (bounded caches, ring buffers, counters) can fill up and wrap
+    ctx['no_restart'] = bdec.choice('long-uptime', 2) == 0
     env = Env(ctx)
     env.install()
     # pre-warm (untraced): this batch's date-time models, so that only runs that ask for a cold start pay for them
@@ -784,7 +805,7 @@ def run_batch(job):
            'barrier_sites': {}, 'ctor': {}, 'double_ctor': 0, 'placements': {}, 'threads': {}, 'capped': 0,
            'clock_reads_in_explicit_calls': 0, 'cold_runs': 0, 'restarts': 0, 'faulted_ops': 0, 'checked_ops': 0,
            'swallowed_abort': 0, 'dt_focus': sorted(ctx['dt_focus']), 'barrier_classes': env.n_barrier_classes,
-           'sched_kinds': {}, 'culture_classes': {}, 'get_outcomes': {}, 'observed_steps': {}, 'boot_containers': env.n_boot_containers, 'process_tables_instrumented': env.n_tables}
+           'sched_kinds': {}, 'culture_classes': {}, 'get_outcomes': {}, 'observed_steps': {}, 'boot_containers': env.n_boot_containers, 'long_uptime_batch': int(bool(ctx['no_restart'])), 'process_tables_instrumented': env.n_tables}
     est = ctx['step_estimate']
     for idx in range(job['first'], job['first'] + job['count']):
         run_seed = derive_seed(seed, prop, idx)
@@ -800,6 +821,7 @@ def run_batch(job):
         rep['cold_runs'] += int(bool(plan['cold']))
         rep['sched_kinds'][plan['sched']['kind']] = rep['sched_kinds'].get(plan['sched']['kind'], 0) + 1
         rep['sweeps'] = rep.get('sweeps', 0) + int(bool(plan.get('sweep')))
+        rep['bursts'] = rep.get('bursts', 0) + int(bool(plan.get('burst')))
         n = str(len(plan['clients']))
         rep['threads'][n] = rep['threads'].get(n, 0) + 1
         for f in record['faults_fired']:
